@@ -20,6 +20,17 @@ PROPS: dict[str, dict[str, Any]] = {
                         "calculate_logic_gates is treated as a function of the set of successor multisets (pm4py's miner is external; determinism observed, not proved)",
                         "janus (test_event_generator) is absent: /verif/stubs reproduces GraphSolution.from_event_list from its documented behaviour (bounded part only)"],
     },
+    "C06": {
+        "level": "exploration",
+        "sidecars": [],
+        "bounded": [{"script": "bounded/gate_harness.py", "args": []}],
+        "rule": "bounded stand-in, exhaustive in the property's own bound: every gate tree over n <= 5 (thorough 6) distinct events, depth <= 3, operators "
+                "alternating, children = blocks of a set partition (3 + 21 + 243 + 2493 trees for n = 2..5) with its full outcome family, run through the real "
+                "calculate_logic_gates (pm4py present): soundness on all, exactness on the sub-class (OR over plain events only, no AND with two OR children); "
+                "plus soundness on arbitrary observed families: all 127 families of non-empty subsets of 3 events and 4000 sampled (thorough: all 32767) of 4 "
+                "events. Each case is a distinct input by construction; all are non-trivial (>= 2 events or >= 1 set)",
+        "assumptions": ["bounded, not proved: pm4py's inductive miner is an external dependency with no contract; operator semantics of the oracle as stated in bounded/gate_harness.py"],
+    },
     "C08": {
         "level": "proof",
         "sidecars": ["contracts/c08.py"],
